@@ -1,16 +1,16 @@
-/* C17: secp256k1_schnorrsig_aggverify - gates of half-aggregate verification for EVERY count n, every
- * aggregate byte string of every length, NULL-or-object for each pointer.
- *   accepts only if aggsig_len == 32*(n+1) exactly (mismatch: returns 0 before touching any array);
- *   ret = 1 => for every i < n: r_i < p, the lift_x oracle was asked about exactly x = r_i (even y) and said yes,
- *              the challenge oracle received (r_i, m_i, 32, be(x(pk_i)));
- *   s = aggsig[32n..32n+32) >= group order => 0;   lhs = s*G for exactly that s;
- *   ret = the "is infinity" verdict of the final group addition;
- *   every index i*32, n*32 stays inside the caller's objects (objects have EXACT sizes here), for all n.
- * Randomizer wiring (same run): the running hash starts from the HalfAgg/randomizer midstate (one init call),
- * iteration i appends exactly r_i || be(x(pk_i)) || m_i at stream positions 64+96i.. (ghost position), z_i is the
- * digest (mod n) of a finalize at stream length 64+96(i+1), and is the multiplier of T_i = R_i + e_i*P_i for
- * i != 0 (z_0 unused); e_i is the challenge oracle's answer and multiplies exactly P_i.
- * The loop over n is closed by the loop contract in hooks/C17_halfagg_loops.diff. */
+/* C17: secp256k1_schnorrsig_aggverify - gates and oracle usage of half-aggregate verification, every aggregate byte
+ * string of every length, NULL-or-object for each pointer, exact-size objects.
+ *   rejections (only the RESULT is demanded): aggsig_len != 32*(n+1) => 0;  API misuse => illegal callback, 0;
+ *   accept (ret = 1) =>  s = aggsig[32n..] < group order;  for every i < n (ghost index): r_i < p; lift_x was asked about
+ *      x = r_i with even y and never answered 0 for it; the challenge oracle was asked about (r_i, m_i, 32 bytes, be(x(pk_i)))
+ *      and its answer e_i multiplied P_i; T_i = e_i*P_i + R_i was formed; a randomizer z_i was derived by a finalize at stream length
+ *      64+96(i+1); for i != 0 z_i*T_i entered the sum, for i = 0 T_0 itself (multiplication skipped, or by 1); every byte of r_i || be(x(pk_i)) || m_i was written
+ *      at its position 64+96i.. of the running hash (ghost position), which was initialised from the HalfAgg midstate;
+ *      lhs = s*G for exactly that s and the comparison addition involving it answered "infinity" (or n = 0 and s = 0);
+ *   completeness of the final step: comparison says infinity, no lift rejected, s in range, no invalid key object => 1.
+ * All usage statements are keyed on VALUES (contracts/assumed_C17.h): no call order, no call counts.
+ * Variants: C17_NBOUND=k (loop unwound, n <= k: the listed units), C17_EARLY (only inputs the spec rejects before the loop;
+ * n unbounded).  Unbounded n with the loop closed by a loop contract: undecided, see engine/units/C17.py. */
 #include "assumed_C17.h"
 #include "src/secp256k1.c"
 #include "post.h"
@@ -32,69 +32,75 @@ void h_aggverify(void) {
     wide nw = N_(), p = P_(), sv = 0;
     __CPROVER_assume(alen <= 32 * (NMAX + 1));
 #ifdef C17_NBOUND
-    __CPROVER_assume(n <= C17_NBOUND);   /* BOUNDED stand-in: the loop over n is unwound instead of closed by its loop contract */
+    __CPROVER_assume(n <= C17_NBOUND);   /* BOUNDED stand-in: the loop over n is unwound instead of closed by a loop contract */
 #endif
     nn = n <= NMAX ? n : 0;     /* for n > NMAX the length can never match: the arrays must not be touched at all */
     INPUT_BUF(aggw, aggsig, alen, 64);
     pks = malloc(nn ? nn * sizeof(*pks) : 1); msgs = malloc(nn ? nn * 32 : 1);
     __CPROVER_assume(pks != NULL && msgs != NULL);
     verif_ctx_init(&ctx); ctx.hash_ctx.fn_sha256_compression = secp256k1_sha256_transform; ctx.ecmult_gen_ctx.built = built;
-    g_gen_n = 0; c17_last_inf = 0; c17_phase = 0; c17_init_n = 0; c17_mode = 0;
-    c17_aggsig = aggsig; c17_msgs = msgs; c17_pks = pks; c17_n = n; c17_nb = 0; c17_sigs = NULL;
-    verif_c17_xo_n = 0; verif_c17_fin_n = 0; verif_c17_bad = 0; verif_c17_rej = 0; verif_c17_whit = 0;
+    C17_RESET();
     len_ok = (W(alen) == 32 * (W(n) + 1));
-    verif_c17_gk = gk; verif_c17_gk_ok = 1; c17_exp_r = 0; c17_exp_px = 0; c17_exp_py = 0; c17_exp_s = 0;
+    args_ok = (use_pk || n == 0) && (use_msgs || n == 0) && use_agg && built;
+    verif_c17_gk = gk; c17_gk_end = 64 + 96 * ((uint64_t)gk + 1); c17_exp_r = 0; c17_exp_m = 0; c17_exp_px = 0; c17_exp_py = 0; c17_exp_s = 0;
+    verif_c17_wpos = wpos; verif_c17_wexp = 0;
 #ifndef C17_EARLY   /* the early-exit variant never reaches the loop: no expectation about array contents is needed (and no symbolic-index reads) */
-    if (len_ok && gk < n) FOR_IDX(k, gk) { c17_exp_r = be256(aggsig + 32 * k); c17_exp_px = c17_le256(pks[k].data); c17_exp_py = c17_le256(pks[k].data + 32); verif_c17_gk_ok = (c17_exp_r < p); }
+    if (len_ok && gk < n) FOR_IDX(k, gk) { c17_exp_r = be256(aggsig + 32 * k); c17_exp_m = be256(msgs + 32 * k); c17_exp_px = c17_le256(pks[k].data); c17_exp_py = c17_le256(pks[k].data + 32); }
     if (len_ok) FOR_IDX(k, n) sv = be256(aggsig + 32 * k);
     /* expected byte at stream position wpos of the running hash: signature t = (wpos-64)/96, r_t || be(x(pk_t)) || m_t */
-    verif_c17_wpos = wpos; verif_c17_wexp = 0;
     if (len_ok && wpos >= 64 && wpos < 64 + 96 * (uint64_t)n) { size_t t = (wpos - 64) / 96, o = (wpos - 64) % 96;
         FOR_IDX(k, t) verif_c17_wexp = o < 32 ? aggsig[32 * k + o] : o < 64 ? pks[k].data[31 - (o - 32)] : msgs[32 * k + (o - 64)]; }
-#endif
-
-#ifdef C17_EARLY
+#else
     /* EARLY-EXIT variant: only calls the specification rejects before the loop (misuse or wrong length), n and the length unbounded;
      * a call that nevertheless enters the loop trips the unwinding assertion */
-    __CPROVER_assume(!((use_pk || n == 0) && (use_msgs || n == 0) && use_agg && built) || !len_ok);
+    __CPROVER_assume(!args_ok || !len_ok);
 #endif
     ret = secp256k1_schnorrsig_aggverify(&ctx, use_pk ? pks : NULL, use_msgs ? msgs : NULL, n, use_agg ? aggsig : NULL, alen);
     WITNESS_BUF(aggw, aggsig, alen, 64);
 
     __CPROVER_assert(ret == 0 || ret == 1, "C17 aggverify: returns 0 or 1");
     __CPROVER_assert(g_error == 0, "C17 aggverify: error callback never invoked");
-    args_ok = (use_pk || n == 0) && (use_msgs || n == 0) && use_agg && built;
-    if (!args_ok) { __CPROVER_assert(ret == 0 && g_illegal == 1 && verif_c17_xo_n == 0 && g_gen_n == 0, "C17 aggverify: API misuse reports illegal use, returns 0, verifies nothing"); REACH("aggverify API misuse"); return; }
-    __CPROVER_assert(g_illegal == 0 || (ret == 0 && len_ok && n > 0), "C17 aggverify: no callback on well-formed arguments, except for an invalid public key object met while verifying (then 0)");
-    if (!len_ok) { __CPROVER_assert(ret == 0 && verif_c17_xo_n == 0 && g_gen_n == 0 && verif_c17_fin_n == 0 && verif_c17_whit == 0, "C17 aggverify: aggsig_len != 32*(n+1) is rejected before anything is read");
-        if (alen == 32 * n) REACH("aggverify length for n-1"); if (alen % 32 == 5 && alen / 32 == n + 1) REACH("aggverify length not a multiple of 32"); 
+    if (!args_ok) { __CPROVER_assert(ret == 0 && g_illegal >= 1, "C17 aggverify: API misuse reports illegal use and returns 0"); REACH("aggverify API misuse"); return; }
+    if (!len_ok) { __CPROVER_assert(ret == 0, "C17 aggverify: aggsig_len != 32*(n+1) is rejected");
+        if (alen == 32 * n) REACH("aggverify length for n-1"); if (alen % 32 == 5 && alen / 32 == n + 1) REACH("aggverify length not a multiple of 32");
 #ifndef C17_NBOUND
         if (n > NMAX) REACH("aggverify huge n");
 #endif
         return; }
 #ifndef C17_EARLY
     if (ret == 1) {
-        __CPROVER_assert(verif_c17_xo_n == n && verif_c17_bad == 0 && verif_c17_rej == 0, "C17 aggverify: accept => n lifts, each of exactly x = r_i with even y, each successful; each challenge on (r_i, m_i, 32, pk_i); e_i*P_i, z_i = digest_i mod n (i != 0); hash bytes as specified");
-        __CPROVER_assert(verif_c17_fin_n == n && c17_init_n == 1, "C17 aggverify: one randomizer per signature, one running hash initialised once");
-        if (wpos >= 64 && wpos < 64 + 96 * (uint64_t)n) __CPROVER_assert(verif_c17_whit, "C17 aggverify: every position of r_i || pk_i || m_i, i < n, is written to the running hash");
-        if (gk < n) __CPROVER_assert(c17_exp_r < p, "C17 aggverify: accept => every r_i < p");
+        __CPROVER_assert(g_illegal == 0, "C17 aggverify: accept without any callback");
         __CPROVER_assert(sv < nw, "C17 aggverify: s >= group order is rejected");
-        __CPROVER_assert(g_gen_n == 1 && sval(&g_gen_a0) == sv, "C17 aggverify: lhs = s*G for s = the last 32 bytes");
+        __CPROVER_assert((g_gen_n == 1 && sval(&g_gen_a0) == sv && c17_cmp_hit && c17_cmp_inf == 1) || (n == 0 && sv == 0), "C17 aggverify: accept => lhs = s*G for s = the last 32 bytes and the comparison with it answered infinity (or n = 0 and s = 0)");
+        if (n > 0) __CPROVER_assert(c17_init_n >= 1 && verif_c17_bad == 0, "C17 aggverify: accept => running hash initialised from the HalfAgg midstate; no watched stream position written with a wrong byte");
+        if (wpos >= 64 && wpos < 64 + 96 * (uint64_t)n) __CPROVER_assert(verif_c17_whit, "C17 aggverify: accept => every position of r_i || pk_i || m_i, i < n, is written to the running hash");
+        if (gk < n) {
+            __CPROVER_assert(c17_exp_r < p, "C17 aggverify: accept => every r_i < p");
+            __CPROVER_assert(c17_xo_hit && !c17_xo_rej, "C17 aggverify: accept => lift_x was asked about x = r_i (even y) and did not reject it");
+            __CPROVER_assert(c17_ch_hit, "C17 aggverify: accept => challenge asked about (r_i, m_i, 32 bytes, be(x(pk_i)))");
+            if (c17_exp_px < p && c17_exp_py < p) __CPROVER_assert(c17_em_e_hit, "C17 aggverify: accept => e_i (the challenge answer) multiplied P_i");
+            __CPROVER_assert(c17_fin_hit, "C17 aggverify: accept => a randomizer was derived from the running hash at length 64+96(i+1)");
+            if (c17_exp_px < p && c17_exp_py < p) {
+                __CPROVER_assert(c17_T_hit, "C17 aggverify: accept => T_i = e_i*P_i + R_i was formed (R_i: the lifted point with x = r_i)");
+                if (gk != 0) __CPROVER_assert(c17_em_z_hit && c17_acc_z, "C17 aggverify: accept => z_i = digest mod n multiplied T_i and the product entered the sum, i != 0");
+                else __CPROVER_assert(c17_acc_plain || (c17_acc_z && C17_Z == 1), "C17 aggverify: accept => T_0 entered the sum with z_0 = 1 (multiplication skipped, or by one)");
+            }
+        }
     }
-    if (g_gen_n == 1) __CPROVER_assert(ret == c17_last_inf, "C17 aggverify: result is the infinity verdict of lhs - rhs");
-    else __CPROVER_assert(ret == 0, "C17 aggverify: no acceptance without the final comparison");
-    if (g_gen_n == 1 && verif_c17_xo_n == n) __CPROVER_assert(verif_c17_bad == 0 && verif_c17_rej == 0 && verif_c17_fin_n == n, "C17 aggverify: the final comparison is reached only after n successful, correctly wired iterations");
+    if (c17_cmp_hit && c17_cmp_inf == 1 && !c17_xo_anyrej && sv < nw && g_illegal == 0 && g_gen_n == 1 && sval(&g_gen_a0) == sv)
+        __CPROVER_assert(ret == 1, "C17 aggverify: comparison says infinity, no lift rejected, s in range, no invalid key object => accepted");
     if (ret == 1 && n == 0) REACH("aggverify accepts n = 0");
     if (ret == 1 && n == 1) REACH("aggverify accepts n = 1");
 #ifndef C17_NBOUND
     if (ret == 1 && n == 1000000 && gk == 999999 && wpos == 64 + 96 * 999999 + 40) REACH("aggverify accepts n = 10^6");
-    if (ret == 0 && verif_c17_rej == 1 && n > 5) REACH("aggverify rejects on a lift verdict, n > 5");
 #else
-    if (ret == 1 && n == C17_NBOUND && gk == n - 1 && wpos == 64 + 96 * (n - 1) + 40) REACH("aggverify accepts n = bound");
+    if (ret == 1 && n == C17_NBOUND && gk == n - 1 && wpos == 64 + 96 * (n - 1) + 40) REACH("aggverify accepts n = bound, last signature");
+    if (ret == 1 && n == C17_NBOUND && gk == 0 && wpos == 64 + 33) REACH("aggverify accepts n = bound, first signature");
 #endif
-    if (ret == 0 && g_gen_n == 1) REACH("aggverify rejects at the final comparison");
-    if (ret == 0 && g_gen_n == 0 && verif_c17_xo_n == n && verif_c17_rej == 0) REACH("aggverify rejects s >= n");
-    if (ret == 0 && verif_c17_rej == 1 && n > 1) REACH("aggverify rejects on a lift verdict");
-    if (ret == 0 && gk < n && n > 2 && gk == 1 && c17_exp_r >= p) REACH("aggverify rejects r_1 >= p");
+    if (ret == 0 && c17_cmp_hit) REACH("aggverify rejects at the final comparison");
+    if (ret == 0 && g_gen_n == 0 && sv >= nw && !c17_xo_anyrej && g_illegal == 0) REACH("aggverify rejects s >= n");
+    if (ret == 0 && c17_xo_rej && n > 1) REACH("aggverify rejects on a lift verdict");
+    if (ret == 0 && gk < n && n > 1 && gk == 1 && c17_exp_r >= p) REACH("aggverify rejects r_1 >= p");
+    if (ret == 0 && g_illegal >= 1) REACH("aggverify invalid key object");
 #endif
 }
